@@ -217,7 +217,7 @@ CHECKS = {
     ),
     'C14': dict(
         ref='5.14',
-        text='Theorems in coq/Properties/C14.v (partial): every whole field - comma-separated groups of "|"-separated '
+        text='Theorems in coq/Properties/C14.v: every whole field - comma-separated groups of "|"-separated '
              'alternatives, each alternative under every layout and surrounded by any white space, line breaks included - '
              'parses to exactly its groups and alternatives in order (induction over groups and alternatives, no bound), and '
              'the reported names are exactly those mentioned; every well-formed alternative (name, optional operator and version, '
@@ -225,12 +225,12 @@ CHECKS = {
              'name, operator, version and architectures - proved through the scanner model of the relationship pattern, the '
              'operator tokenisation and the white-space splitting, for tokens and layouts of any length; its string form is '
              'the canonical single-spaced spelling, which parses back to an equal object; names are exactly those mentioned; a '
-             'version clause without operator or with nothing but an operator raises ValueError. NOT proved: the round trip of '
-             'the string form of a whole field and the more-than-one-operator error clause; decided by co-execution of the model with deps.py on rendered abstract fields with '
+             'version clause without operator, with nothing but an operator, or with two operators raises ValueError; the string '
+             'form of a whole field (", " and " | " separators) parses back to an equal object. Also co-execution of the model with deps.py on rendered abstract fields with '
              'random layouts, their corruptions, all strings of length <=4/5 over a 17-character alphabet through the compiled '
              'pattern, all strings of length <=6/7 through split_on_ops, and by the executable statement.',
         note=TRUST,
-        technique='Rocq proof over a scanner model (partial) + small-scope exhaustive co-execution against the compiled regex and parser',
+        technique='Rocq proof over a scanner model + small-scope exhaustive co-execution against the compiled regex and parser',
     ),
     'C15': dict(
         ref='5.15',
